@@ -39,6 +39,16 @@ class SegEval:
         self.d = degree
         self.names = names_ctrl(degree) + ["t"]
 
+    replay_any_denominator = True
+
+    def extra_envs(self):
+        """probe inputs with large denominators: replayed on real Fractions and compared *exactly* with the exact
+        values (a type-specific rounding such as a denominator cap only shows on Fraction inputs)"""
+        d = self.d
+        ints = [F((7 * i * i + 3 * i) % 11 - 5) for i in range(2 * d + 2)]
+        fr5 = [F((31 * i + 7) % 19 - 9, 10**5 + 3 + 2 * i) for i in range(2 * d + 2)]
+        return [ints + [F(1, 10**9 + 7)], ints + [F(1, 1024)], fr5 + [F(3, 10**5 + 19)], ints + [F(10**6 + 1, 3 * 10**6)]]
+
     def run(self, xs):
         d = self.d
         seg = PlanarCurve(ctrl(xs, d))
@@ -332,7 +342,9 @@ def main(tier, seed):
     from checks.common import Runner
 
     r = Runner("C18", tier, seed)
+    r.exact_compare = True
     r.run_specs(specs(tier))
+    r.inexact_to_violations("value differs from the exact rational on Fraction input")
     return r.finish(
         explanation="PlanarCurve evaluation, derivatives (k <= degree+1) and split executed under SYMX with *all* control points, the parameter and the "
         "split nodes symbolic (degrees 1..6): the executed arithmetic (raw expression DAG) is compared by z3 with independent Bernstein / blossom terms "
